@@ -471,6 +471,14 @@ def r_bin_variance_range(ctx, db, est, ln, consts=None):
         ok0 = N.all_nonneg_poly(num) and N.all_nonneg_poly(den)
         num2, den2 = sp.fraction(sp.cancel(sp.together(c - e)))
         ok1 = N.all_nonneg_poly(num2) and N.all_nonneg_poly(den2)
+        # upper bound total/4: total/4 - variance must be (a perfect square) / (positive)
+        tot = sum((cv.conv(F.i2f(b)) for b in ba), sp.Integer(0))
+        numq, denq = sp.fraction(sp.cancel(sp.together(tot / 4 - e)))
+        cst, facs = sp.factor_list(numq)
+        okq = ((cst > 0 and all(ex % 2 == 0 for _, ex in facs)) or N.all_nonneg_poly(numq)) and N.all_nonneg_poly(denq)
+        ctx.ob("R-SIGN", "bin-variance-quarter:LEN=%d:bin=%d" % (ln, j), vp, R.fn_site(db, vp), okq,
+               "total/4 - variance(%d) = %s: %s" % (j, sp.factor(tot / 4 - e), "a square (or a polynomial with non-negative coefficients) over a positive denominator, so variance <= total/4 over the reals" if okq else "not a square: the bound total/4 is not established"),
+               d7=True)
         ctx.ob("R-SIGN", "bin-variance-range:LEN=%d:bin=%d" % (ln, j), vp, R.fn_site(db, vp), ok0 and ok1,
                "variance(%d) = %s is %s" % (j, e, "a ratio of polynomials with non-negative coefficients in the counts, and so is count - variance: it lies in [0, count]"
                                             if ok0 and ok1 else "not provably within [0, count]"), d7=True)
